@@ -987,6 +987,14 @@ impl Check for C08 {
             }
             // one case in eight: chaining on and an original map of its own (also degenerate ones: no mappings at all, a
             // first mapping beyond the end of the code) - the trailer has to be in place whatever the chain yields
+            // one sloppy script in sixteen: a legacy decimal literal with a leading zero as object of a member access
+            let sel3 = tape.get(3).copied().unwrap_or(0);
+            if sel3 & 15 == 15 && !crate::known::avoid_flags().legacy_decimal_member {
+                let src = v["src"].as_str().unwrap_or("").to_string();
+                if !src.contains("use strict") && !src.contains("export ") && !src.contains("import ") && !src.contains("class ") {
+                    v["src"] = json!(src.replacen("let x = a", "var legacy = 08 .toString() + 09.5.toFixed(1); let x = a", 1));
+                }
+            }
             let sel = tape.get(2).copied().unwrap_or(0);
             if sel & 7 == 7 {
                 let maps = [
@@ -1060,7 +1068,11 @@ impl Check for C08 {
             _ => return Outcome::fail("trailer-invalid", "trailer payload is not base64 of a JSON object"),
         }
         match ast::parse(&body) {
-            Err(e) => return Outcome::fail("output-unparsable", format!("the rewriter's own parser rejects the output: {e}")),
+            Err(e) => {
+                // known finding: `08 .toString()` (legacy decimal literal with a leading zero) is printed as `08.toString()`
+                let legacy = src.contains("var legacy = 08 .");
+                return Outcome::fail(if legacy { "output-unparsable:legacy-decimal-member" } else { "output-unparsable" }, format!("the rewriter's own parser rejects the output: {e}"));
+            }
             Ok(p) => {
                 if p.is_module != src_parsed.is_module {
                     return Outcome::fail("kind-changed", format!("input is_module={} output is_module={}", src_parsed.is_module, p.is_module));
